@@ -66,31 +66,45 @@ def gate(kind, path):
 
 
 class _WProxy(object):
-    """Unbuffered binary file opened for writing under the root: write halves and close are boundaries."""
+    """Binary file opened for writing under the root.  Like Python's BufferedWriter the data of small writes stays in
+    the process (and is lost by a kill) until the buffer overflows, flush() or close(); what then goes to the file
+    system is split in two halves, and the halves and the close are boundaries."""
 
-    def __init__(self, raw, path):
+    def __init__(self, raw, path, bufsize=8192):
         self._raw = raw
         self._path = path
         self._closed = False
+        self._bufsize = bufsize
+        self._buf = b""
 
-    def write(self, data):
-        data = bytes(data)
+    def _emit(self, data):
         if len(data) >= 2:
             h = len(data) // 2
             gate("write-half1", self._path)
             self._raw.write(data[:h])
             gate("write-half2", self._path)
             self._raw.write(data[h:])
-        else:
+        elif data:
             gate("write", self._path)
             self._raw.write(data)
+
+    def write(self, data):
+        data = bytes(data)
+        self._buf += data
+        if len(self._buf) > self._bufsize:
+            out, self._buf = self._buf, b""
+            self._emit(out)
         return len(data)
 
     def flush(self):
+        if self._buf:
+            out, self._buf = self._buf, b""
+            self._emit(out)
         return None
 
     def close(self):
         if not self._closed:
+            self.flush()
             gate("close", self._path)
             self._closed = True
             self._raw.close()
@@ -116,7 +130,7 @@ def _open(file, mode="r", buffering=-1, encoding=None, errors=None, newline=None
         gate("open-w" if writing else "open-r", file)
         if writing and "b" in mode:
             raw = _orig["open"](file, mode, 0)
-            return _WProxy(raw, file)
+            return _WProxy(raw, file, 0 if buffering == 0 else (buffering if buffering > 1 else 8192))
         if writing:
             # text mode: keep it simple - unbuffered binary underneath, line buffering off
             raw = _orig["open"](file, mode.replace("t", "") + "b", 0)
